@@ -1,12 +1,18 @@
 //! meldamon: runtime monitors for libmelda.  `meldamon <mode> key=value ...`
 //! Every mode prints one JSON line per case on stdout and a final {"t":"done"} line.
+mod arrays;
+mod backends;
 mod engine;
+mod faults;
 mod gen;
 mod obs;
 mod refmodel;
 mod rng;
+mod routes;
 mod store;
+mod unit;
 
+use engine::CaseResult;
 use serde_json::json;
 use std::collections::BTreeMap;
 
@@ -40,18 +46,42 @@ fn parse_args() -> Args {
     Args { mode, kv }
 }
 
-fn mode_engine(a: &Args) {
-    let seed = a.u64("seed", 1);
-    let from = a.u64("from", 0);
-    let to = a.u64("to", 10);
-    let prof = engine::profile(&a.str("profile", "general"));
-    let rule = a.str("rule", "any");
-    let trace = a.flag("trace");
-    for case in from..to {
-        let w = engine::run_case(seed, case, &prof);
-        let nt = engine::engine_nontrivial(&w.res, &rule);
-        println!("{}", w.res.to_json(case, nt, trace));
+struct Emit {
+    trace: bool,
+    samples: u64,
+    shown: u64,
+}
+impl Emit {
+    fn case(&mut self, case: u64, res: &CaseResult, nt: bool) {
+        let show = self.trace || (nt && self.shown < self.samples);
+        if show {
+            self.shown += 1;
+        }
+        println!("{}", res.to_json(case, nt, show));
     }
+}
+
+fn profile_from(a: &Args, default: &str) -> engine::Profile {
+    let mut p = engine::profile(&a.str("profile", default));
+    if let Some(b) = a.kv.get("backend") {
+        p.backend = b.clone();
+    }
+    if let Some(t) = a.kv.get("tmp") {
+        p.tmp = t.clone();
+    }
+    if let Some(s) = a.kv.get("steps") {
+        if let Ok(n) = s.parse::<usize>() {
+            p.steps = (n, n);
+        }
+    }
+    if a.flag("nofinal") {
+        p.final_sync = false;
+    }
+    if a.flag("plaincontent") {
+        p.doc.hostile_strings = false;
+        p.doc.hostile_ids = false;
+    }
+    p
 }
 
 fn main() {
@@ -64,12 +94,171 @@ fn main() {
     if delay != 0 {
         melda::verif::set_delay_seed(delay);
     }
+    let seed = a.u64("seed", 1);
+    let from = a.u64("from", 0);
+    let to = a.u64("to", 10);
+    let tier = a.str("tier", "quick");
+    let thorough = tier == "thorough";
+    let mut em = Emit { trace: a.flag("trace"), samples: a.u64("samples", 0), shown: 0 };
+    let mut done = json!({"t": "done"});
+    let prog = |case: u64, what: &str| engine::progress(&format!("CALL case={} step=0 {}", case, what));
     match a.mode.as_str() {
-        "engine" => mode_engine(&a),
+        "engine" => {
+            let prof = profile_from(&a, "general");
+            let rule = a.str("rule", "any");
+            if a.flag("hooktrace") {
+                melda::verif::set_trace(true);
+            }
+            for case in from..to {
+                let w = engine::run_case(seed, case, &prof);
+                let nt = engine::engine_nontrivial(&w.res, &rule);
+                if a.flag("hooktrace") {
+                    // distinct interleavings: order in which the parallel sections reached their objects
+                    let ev = melda::verif::take_trace();
+                    let order: Vec<String> = ev.iter().map(|(p, k, t)| format!("{}{}@{:?}", p, k, t)).collect();
+                    let mut j = w.res.to_json(case, nt, em.trace);
+                    j["interleaving"] = json!(gen::sha(order.join(",").as_bytes())[..16].to_string());
+                    j["hook_events"] = json!(ev.len());
+                    let workers: std::collections::BTreeSet<Option<usize>> = ev.iter().map(|e| e.2).collect();
+                    j["workers_seen"] = json!(workers.len());
+                    println!("{}", j);
+                } else {
+                    em.case(case, &w.res, nt);
+                }
+            }
+        }
+        "c01" => {
+            let prof = profile_from(&a, "conflict");
+            for case in from..to {
+                prog(case, "c01");
+                let res = routes::c01_case(seed, case, &prof);
+                let nt = routes::c01_nontrivial(&res);
+                em.case(case, &res, nt);
+            }
+        }
+        "c02" => {
+            let prof = profile_from(&a, "conflict");
+            let nperm = a.u64("perms", if thorough { 8 } else { 4 }) as usize;
+            for case in from..to {
+                prog(case, "c02");
+                let res = routes::c02_case(seed, case, &prof, nperm);
+                let nt = routes::c02_nontrivial(&res);
+                em.case(case, &res, nt);
+            }
+        }
+        "c05unit" => {
+            for case in from..to {
+                let res = unit::c05_case(seed, case);
+                let nt = unit::c05_nontrivial(&res);
+                em.case(case, &res, nt);
+            }
+        }
+        "c06unit" => {
+            let (k, l) = if thorough { (6, 6) } else { (5, 5) };
+            let k = a.u64("k", k) as usize;
+            let l = a.u64("len", l) as usize;
+            let seqs = unit::dupfree_sequences(k, l);
+            for case in from..to.min(seqs.len() as u64) {
+                let res = unit::c06_case(seed, case, k, l, &seqs);
+                em.case(case, &res, res.feat("len_m") >= 2);
+            }
+            done["exhaustive"] = json!(true);
+            done["space"] = json!(format!("all ordered pairs of duplicate-free sequences over {} letters up to length {}: {} x {}", k, l, seqs.len(), seqs.len()));
+        }
+        "c16unit" => {
+            let (k, l) = if thorough { (4, 6) } else { (3, 5) };
+            let k = a.u64("k", k) as usize;
+            let l = a.u64("len", l) as usize;
+            let seqs = unit::sequences_with_rep(k, l);
+            for case in from..to.min(seqs.len() as u64) {
+                let res = unit::c16_case(seed, case, &seqs);
+                em.case(case, &res, res.feat("len_a") >= 2);
+            }
+            done["exhaustive"] = json!(true);
+            done["space"] = json!(format!("all ordered pairs of sequences (repetition allowed) over {} letters up to length {}: {} x {}", k, l, seqs.len(), seqs.len()));
+        }
+        "c19unit" => {
+            for case in from..to {
+                let res = unit::c19_case(seed, case);
+                let nt = res.feat("max_index") >= 10 && res.feat("markers") >= 1;
+                em.case(case, &res, nt);
+            }
+        }
+        "c19twins" => {
+            for case in from..to {
+                prog(case, "c19twins");
+                let res = routes::c19_twins_case(seed, case);
+                let nt = routes::c19_twins_nontrivial(&res);
+                em.case(case, &res, nt);
+            }
+        }
+        "c06sys" => {
+            for case in from..to {
+                prog(case, "c06sys");
+                let res = arrays::c06_case(seed, case);
+                let nt = arrays::c06_nontrivial(&res);
+                em.case(case, &res, nt);
+            }
+        }
+        "c07" => {
+            let prof = profile_from(&a, "conflict");
+            for case in from..to {
+                prog(case, "c07");
+                let res = arrays::c07_case(seed, case, &prof);
+                let nt = arrays::c07_nontrivial(&res);
+                em.case(case, &res, nt);
+            }
+        }
+        "c16chain" => {
+            let steps = a.u64("chain", if thorough { 120 } else { 60 }) as usize;
+            for case in from..to {
+                prog(case, "c16chain");
+                let res = arrays::c16_case(seed, case, steps);
+                let nt = arrays::c16_nontrivial(&res);
+                em.case(case, &res, nt);
+            }
+        }
+        "c09" => {
+            for case in from..to {
+                prog(case, "c09");
+                let res = faults::c09_case(seed, case);
+                let nt = faults::c09_nontrivial(&res);
+                em.case(case, &res, nt);
+            }
+            done["exhaustive"] = json!(true);
+            done["space"] = json!("per sampled history: a crash point before every storage write, every single write-failure position and every pair of consecutive positions");
+        }
+        "c10" => {
+            let mut prof = profile_from(&a, "conflict");
+            if a.kv.get("steps").is_none() {
+                prof.steps = (10, 22);
+            }
+            for case in from..to {
+                prog(case, "c10");
+                let res = faults::c10_case(seed, case, &prof, a.flag("dense"));
+                let nt = faults::c10_nontrivial(&res);
+                em.case(case, &res, nt);
+            }
+        }
+        "c17contract" => {
+            let tmp = a.str("tmp", &std::env::temp_dir().to_string_lossy());
+            let nops = a.u64("ops", 400) as usize;
+            let only = a.kv.get("backend").cloned();
+            for case in from..to {
+                let kind = match &only {
+                    Some(k) => k.clone(),
+                    None => backends::BACKENDS[(case as usize) % backends::BACKENDS.len()].to_string(),
+                };
+                prog(case, &format!("c17contract {}", kind));
+                let res = backends::contract_case(seed, case, &kind, &tmp, nops);
+                let nt = backends::contract_nontrivial(&res);
+                em.case(case, &res, nt);
+            }
+        }
         _ => {
-            eprintln!("modes: engine");
+            eprintln!("unknown mode {}", a.mode);
             std::process::exit(2);
         }
     }
-    println!("{}", json!({"t": "done"}));
+    println!("{}", done);
 }
